@@ -20,6 +20,9 @@ SAN = {
     "asan": ["-fsanitize=address,undefined", "-fsanitize-recover=address,undefined"],
     "fuzz": ["-fsanitize=fuzzer-no-link,address,undefined", "-fsanitize-recover=address,undefined"],
     "tsan": ["-fsanitize=thread"],
+    # unoptimised: every local lives in its stack slot, so reads of uninitialised locals see the
+    # pattern the harness fills the stack with before each operation (rt.cpp dirty_stack)
+    "asan0": ["-fsanitize=address,undefined", "-fsanitize-recover=address,undefined", "-O0"],
     "plain": [],
 }
 COMMON = ["-g", "-O1", "-fno-omit-frame-pointer", "-fno-builtin-memcpy", "-fno-builtin-memmove",
